@@ -15,6 +15,7 @@ import YtkProofs.Builder
 import YtkProofs.LensIdx
 import YtkProofs.ValidB
 import YtkProofs.HeapBuilder
+import YtkProofs.HeapBuilderRefine
 
 namespace Ytk.C03
 
@@ -166,6 +167,59 @@ theorem nonvacuous_divergeIdx :
 section heap
 open Ytk.Heap
 
+/-- REFINEMENT: on a well-formed heap whose graph below the handle `c` is a tree apart from shared
+    leaves (`SibSep`), with a value node that shares at most leaves with it (`Apart`), the document
+    below `c` after the heap-level `AddValueAt` is the value-level `addValueAt` of the document before
+    with the value's abstraction — and the heap is well-formed again.  This transfers every theorem
+    above (set-get, frame, padding, validity, …) to the pointer level.  Every path string. -/
+theorem heap_addValueAt_abs (h h' : Heap) (c v : Addr) (d : AMap Node) (vn : Node) (path : String)
+    (hi : Inv h) (hs : SibSep h c) (hap : Apart h c v) (hcl : c < h.size) (hvl : v < h.size)
+    (hd : abs h c = some (.cont d)) (hv : abs h v = some vn) (he : addValueAtH h c path v = some h') :
+    Inv h' ∧ abs h' c = some (.cont (addValueAt d path vn)) :=
+  addValueAtH_refines hi hs hap hcl hvl hd hv he
+
+/-- REFINEMENT of `RemoveAt` / `Remove`. -/
+theorem heap_removeAt_abs (h h' : Heap) (c : Addr) (d : AMap Node) (hi : Inv h) (hcl : c < h.size)
+    (hd : abs h c = some (.cont d)) :
+    (∀ path, SibSep h c → removeAtH h c path = some h' → Inv h' ∧ abs h' c = some (.cont (removeAt d path))) ∧
+    (∀ name, Ytk.Heap.remove h c name = some h' → Inv h' ∧ abs h' c = some (.cont (Ytk.remove d name))) :=
+  ⟨fun _ hs he => removeAtH_refines hi hs hcl hd he, fun _ he => remove_refines hi hcl hd he⟩
+
+/-- REFINEMENT of `AddValue` / `AddContainer` / `AddList` (names with index groups included):
+    value-level `add` with the value's abstraction / an empty container / an empty list. -/
+theorem heap_add_abs (h h' : Heap) (c : Addr) (d : AMap Node) (name : String) (hi : Inv h) (hs : SibSep h c)
+    (hcl : c < h.size) (hd : abs h c = some (.cont d)) :
+    (∀ v vn, Apart h c v → v < h.size → abs h v = some vn → addH h c name v = some h' →
+      Inv h' ∧ abs h' c = some (.cont (add d name vn))) ∧
+    (∀ b, addContainerH h c name = some (h', b) → Inv h' ∧ abs h' c = some (.cont (add d name (.cont [])))) ∧
+    (∀ b, addListH h c name = some (h', b) → Inv h' ∧ abs h' c = some (.cont (add d name (.list [])))) :=
+  ⟨fun _ _ hap hvl hv he => addH_refines hi hs hap hcl hvl hd hv he,
+   fun _ he => addContainerH_refines hi hs hcl hd he, fun _ he => addListH_refines hi hs hcl hd he⟩
+
+/-- REFINEMENT of `ListBuilder.Set` / `Append` / `Clear` / `MustSet` on the list cell `l` (no tree
+    hypothesis needed: one cell is written; the value must not reach the list). `MustSet`: in range it
+    writes the slot, out of range BOTH models panic. -/
+theorem heap_listSet_abs (h h' : Heap) (l v : Addr) (ns : List Node) (vn : Node) (i : Nat) (hi : Inv h)
+    (hvl : ¬ Reach h v l) (hll : l < h.size) (hvlt : v < h.size) (hd : abs h l = some (.list ns))
+    (hv : abs h v = some vn) :
+    (Ytk.Heap.listSet h l i v = some h' → Inv h' ∧ abs h' l = some (.list (listSet ns i vn))) ∧
+    (Ytk.Heap.listAppend h l v = some h' → Inv h' ∧ abs h' l = some (.list (listAppend ns vn))) ∧
+    (listClear h l = some h' → Inv h' ∧ abs h' l = some (.list [])) ∧
+    (i < ns.length → ∃ h2 f', listMustSetH h l i v = .ok h2 ∧ absH f' h2 l = some (.list (ns.set i vn)) ∧
+      listMustSet ns i vn = .ok (ns.set i vn)) ∧
+    (ns.length ≤ i → listMustSetH h l i v = .panic ∧ listMustSet ns i vn = .panic) := by
+  obtain ⟨rank, hr⟩ := hi.acyclic
+  have hms := Refine.listMustSetH_abs (i := i) hi.closed hr hvl (abs_absH hd) (abs_absH hv)
+  exact ⟨fun he => listSet_refines hi hvl hll hvlt hd hv he, fun he => listAppend_refines hi hvl hll hvlt hd hv he,
+    fun he => listClear_refines hi hd he, hms.1, hms.2⟩
+
+/-- REFINEMENT of `Walk(CompactFn)`: the value-level `compactKvs` (so `compact_flatten`,
+    `compact_no_empty` hold at pointer level). -/
+theorem heap_compact_abs (h h' : Heap) (c : Addr) (d : AMap Node) (hi : Inv h) (hs : SibSep h c)
+    (hd : abs h c = some (.cont d)) (he : compactH h c = some h') :
+    Inv h' ∧ abs h' c = some (.cont (compactKvs d)) :=
+  compactH_refines hi hs hd he
+
 /-- SET-GET, pointer level: after `AddValueAt(path, v)` on the handle `c`, `Lookup(path)` returns the
     very node `v` that was passed in — it is attached itself, not a copy (the documented sharing of
     the builder API). Every path string. -/
@@ -225,6 +279,18 @@ theorem heap_handle_live (h : Heap) (root x v : Addr) (segs : List String) (ha :
       removeAtSegsH h root segs = Ytk.Heap.remove h x last ∧
       lookupSegsH h root segs = childH h x last :=
   ⟨ancestorH_reach segs root x ha, ancestorH_spec v segs root x ha⟩
+
+/-- … hence a write through a LIVE handle is visible from the root exactly as the value-level edit at
+    the handle's path: `x.AddValue(last, v)` changes `abs root` to `addAtSegs d segs vn`. -/
+theorem heap_handle_live_abs (h h' : Heap) (root x v : Addr) (d : AMap Node) (vn : Node) (segs : List String)
+    (last : String) (hi : Inv h) (hs : SibSep h root) (hap : Apart h root v) (hrl : root < h.size) (hvl : v < h.size)
+    (hd : abs h root = some (.cont d)) (hv : abs h v = some vn)
+    (ha : ancestorH h root segs = some x) (hl : segs.getLast? = some last) (he : addH h x last v = some h') :
+    Inv h' ∧ abs h' root = some (.cont (addAtSegs d segs vn)) := by
+  obtain ⟨last', hl', h1, _, _⟩ := ancestorH_spec v segs root x ha
+  rw [hl] at hl'; cases hl'
+  rw [← h1] at he
+  exact addAtSegsH_refines hi hs hap hrl hvl hd hv (by intro e; rw [e] at hl; cases hl) he
 
 /-- HANDLES STAY ATTACHED (frame at pointer level): in a tree-shaped document, `AddValueAt(ps, v)`
     does not move what `Lookup(qs)` finds when the two paths diverge by key after a common prefix
